@@ -203,6 +203,32 @@ func c17Check(c *core.Ctx, s histScenario) {
 			return
 		}
 		for _, in := range w.Insts {
+			if in.Partial() {
+				// before the proof is remembered the partial forest misses most of it: a non-empty
+				// result that is kept and must survive every later call (also a second query)
+				miss0 := in.MP.GetMissingPositions(gT)
+				if !after(in.Cfg.Kind + ".GetMissingPositions") {
+					return
+				}
+				if len(miss0) > 0 {
+					c.Count("nonempty_missing_position_results_kept", 1)
+				}
+				addU(in.Name+".GetMissingPositions(before remembering)", miss0)
+				f0 := rec.Before.Forest()
+				var others []uint64
+				for _, sl := range rec.Before.Live() {
+					if h := rec.Before.Leaves[sl]; !in.Rem[h] && len(others) < 3 {
+						others = append(others, f0.LeafPos[h])
+					}
+				}
+				if len(others) > 0 {
+					miss1 := in.MP.GetMissingPositions(g.U("otherTargets", others))
+					if !after(in.Cfg.Kind + ".GetMissingPositions") {
+						return
+					}
+					addU(in.Name+".GetMissingPositions(unremembered leaves)", miss1)
+				}
+			}
 			if in.Partial() && len(rec.DelHashes) > 0 {
 				if !setup(in.Cfg.Kind+".Verify(remember)", in.MP.Verify(gDel, proof, true)) || !after(in.Cfg.Kind+".Verify(remember)") {
 					return
